@@ -184,12 +184,15 @@ Record sess := mk_sess
     s_stale : option N;     (* BasicSessionStat.staleStat (WroteBytesSum part) *)
     s_acc : N;              (* rtsp BaseOutSession: sessionStat.currConnStat.WroteBytesSum *)
     s_udp : list (track * bytes);   (* rtsp: datagrams handed to the UDP sockets, in order *)
-    s_att : N }.            (* connection.Write / Writev calls made by the session so far *)
+    s_att : N;              (* connection.Write / Writev calls made by the session so far *)
+    s_crd : N;              (* the connection's stat.ReadBytesSum: bytes the session's read loop took from the player *)
+    s_rd : N }.             (* rtsp BaseOutSession: sessionStat.currConnStat.ReadBytesSum (nothing adds to it: the
+                               "count received rtp / rtcp" TODOs of onReadRtpPacket / onReadRtcpPacket) *)
 
-Definition sess_new (id : nat) (k : kind) (cap : nat) : sess := mk_sess id k (conn_new cap) None 0 [] 0.
+Definition sess_new (id : nat) (k : kind) (cap : nat) : sess := mk_sess id k (conn_new cap) None 0 [] 0 0 0.
 
 Definition set_conn (c : conn) (s : sess) : sess :=
-  mk_sess (s_id s) (s_kind s) c (s_stale s) (s_acc s) (s_udp s) (s_att s).
+  mk_sess (s_id s) (s_kind s) c (s_stale s) (s_acc s) (s_udp s) (s_att s) (s_crd s) (s_rd s).
 
 (* enqueue the units one after the other; [eager] = the writer goroutine picks
    up a message as soon as it is free (the schedule the harness realises) *)
@@ -262,7 +265,7 @@ Definition sess_write_gen (counts : setup -> track -> bool -> list wres -> bool)
         | true, Some t => if su_udp su t && negb closed then s_udp s ++ [(t, b)] else s_udp s
         | _, _ => s_udp s
         end in
-      (mk_sess (s_id s) (s_kind s) c (s_stale s) acc udp (s_att s + lenN us),
+      (mk_sess (s_id s) (s_kind s) c (s_stale s) acc udp (s_att s + lenN us) (s_crd s) (s_rd s),
        res_code (s_kind s) (Some ws))
   end.
 
@@ -280,10 +283,77 @@ Definition sess_wrote (s : sess) : N :=
 Definition sweep_one (s : sess) : sess :=
   let w := sess_wrote s in
   match s_stale s with
-  | None => mk_sess (s_id s) (s_kind s) (s_conn s) (Some w) (s_acc s) (s_udp s) (s_att s)
+  | None => mk_sess (s_id s) (s_kind s) (s_conn s) (Some w) (s_acc s) (s_udp s) (s_att s) (s_crd s) (s_rd s)
   | Some w0 =>
       let c := if w =? w0 then wclose (s_conn s) else s_conn s in
-      mk_sess (s_id s) (s_kind s) c (Some w) (s_acc s) (s_udp s) (s_att s)
+      mk_sess (s_id s) (s_kind s) c (Some w) (s_acc s) (s_udp s) (s_att s) (s_crd s) (s_rd s)
+  end.
+
+(* ---------------------------------------------------------------------- *)
+(* Inbound traffic: what the PLAYER sends while it is a subscriber, and what
+   the session's own read loop does with it.  An out-session is kept or
+   dropped by the sweep on its WRITE counter only; none of this may touch it. *)
+
+Inductive inbound :=
+| InIlv (ch n : N)                 (* rtsp: '$' ch len16 + n bytes on the command connection (RTCP receiver report on
+                                      an RTCP channel, RTP on an RTP channel, anything on a channel of no track):
+                                      BaseOutSession.HandleInterleavedPacket logs it *)
+| InUdp (t : track) (rtcp : bool) (n : N)   (* rtsp: a datagram to lal's RTP / RTCP socket of track t:
+                                      onReadRtpPacket / onReadRtcpPacket log it *)
+| InOptions (resp : bytes)         (* rtsp: OPTIONS keep-alive; handleOptions writes the response [resp] *)
+| InRequest                        (* rtsp: a request the server does not know (GET_PARAMETER, SET_PARAMETER, PAUSE):
+                                      "unknown rtsp message", no answer *)
+| InRtmpAck                        (* rtmp: Acknowledgement: doAck ignores it *)
+| InRtmpPing (ts : N)              (* rtmp: User Control ping request: doUserControl writes the ping response *)
+| InBytes.                         (* http-flv / http-ts, plain or WebSocket: bytes of anything (a ws ping / pong / close) *)
+
+(* MessagePacker.writePingResponse: one type-0 chunk on csid 2, message type 4,
+   stream 0, body = event 7 + the echoed timestamp *)
+Definition rtmp_pong (ts : N) : bytes :=
+  [2; 0; 0; 0; 0; 0; 6; 4; 0; 0; 0; 0; 0; 7] ++ be_put 4 (u32 ts).
+
+(* is this input something a session of this kind can receive at all *)
+Definition in_ok (k : kind) (x : inbound) : bool :=
+  match k, x with
+  | KRtp _, InIlv _ _ => true
+  | (KRtp su | KWsRtp su), InUdp t _ _ => su_udp su t
+  | (KRtp _ | KWsRtp _), (InOptions _ | InRequest) => true
+  | (KRtmp | KRtmpV), (InRtmpAck | InRtmpPing _) => true
+  | (KFlv | KWsFlv | KTs | KWsTs), InBytes => true
+  | _, _ => false
+  end.
+
+(* the connection write the session's read loop makes in answer (through the
+   same queue as the fan-out writes; rtsp over WebSocket: header and response
+   in ONE write since the repair of F-35) *)
+Definition in_reply (k : kind) (x : inbound) : option wunit :=
+  match k, x with
+  | KRtp _, InOptions resp => Some [resp]
+  | KWsRtp _, InOptions resp => Some [ws_write resp]
+  | (KRtmp | KRtmpV), InRtmpPing ts => Some [rtmp_pong ts]
+  | _, _ => None
+  end.
+
+(* BasicHttpSubSession.RunLoop is ONE Read: whatever arrives ends it, the HTTP
+   handler then disposes the session *)
+Definition in_ends (k : kind) : bool :=
+  match k with KFlv | KWsFlv | KTs | KWsTs => true | _ => false end.
+
+Definition add_crd (n : N) (s : sess) : sess :=
+  mk_sess (s_id s) (s_kind s) (s_conn s) (s_stale s) (s_acc s) (s_udp s) (s_att s) (s_crd s + n) (s_rd s).
+
+(* [size] = bytes the connection hands to the read loop for this input (0 for a
+   datagram).  A reply that the queue rejects is an error for the read loop: it
+   ends and the connection is closed.  A closed connection reads nothing. *)
+Definition in_local (size : N) (x : inbound) (s : sess) : sess :=
+  if c_closed (s_conn s) || negb (in_ok (s_kind s) x) then s else
+  let s1 := add_crd size s in
+  match in_reply (s_kind s) x with
+  | Some u =>
+      let (c1, w) := enqueue u (s_conn s1) in
+      let c2 := match w with WOk => c1 | _ => wclose c1 end in
+      mk_sess (s_id s1) (s_kind s1) c2 (s_stale s1) (s_acc s1) (s_udp s1) (s_att s1 + 1) (s_crd s1) (s_rd s1)
+  | None => if in_ends (s_kind s) then set_conn (wclose (s_conn s1)) s1 else s1
   end.
 
 (* ---------------------------------------------------------------------- *)
@@ -295,7 +365,8 @@ Inductive event :=
 | EvDone (i : nat)                           (* consumer i reads: the blocked write returns *)
 | EvFail (i : nat) (n : nat)                 (* the blocked write of i fails after n bytes *)
 | EvClose (i : nat)                          (* Dispose of consumer i *)
-| EvSweep.                                   (* Group.disposeInactiveSessions, alive check *)
+| EvSweep                                    (* Group.disposeInactiveSessions, alive check *)
+| EvIn (i : nat) (size : N) (x : inbound).   (* consumer i sends something; its read loop handles it *)
 
 Definition on_conn (f : conn -> conn) (i : nat) (s : sess) : sess :=
   if Nat.eqb (s_id s) i then set_conn (f (s_conn s)) s else s.
@@ -309,6 +380,7 @@ Definition local (ev : event) (s : sess) : sess * N :=
   | EvFail i n => (on_conn (wfail n) i s, 0)
   | EvClose i => (on_conn wclose i s, 0)
   | EvSweep => (sweep_one s, 0)
+  | EvIn i size x => (if Nat.eqb (s_id s) i then in_local size x s else s, 0)
   end.
 
 Definition step (ev : event) (st : list sess) : list sess * list N :=
@@ -406,7 +478,7 @@ Definition group_msg (eager : bool) (t ts : N) (p : bytes) (s : sess) : sess :=
    WebSocket-framed *)
 Definition sess_write_plain (eager : bool) (b : bytes) (s : sess) : sess :=
   let s1 := set_conn (fst (enq_all eager [[b]] (s_conn s))) s in
-  mk_sess (s_id s1) (s_kind s1) (s_conn s1) (s_stale s1) (s_acc s1) (s_udp s1) (s_att s1 + 1).
+  mk_sess (s_id s1) (s_kind s1) (s_conn s1) (s_stale s1) (s_acc s1) (s_udp s1) (s_att s1 + 1) (s_crd s1) (s_rd s1).
 
 (* Group.AddHttpflvSubSession: response header (its text is abstracted to the
    single byte 'H'), then the FLV header through Write *)
@@ -429,6 +501,32 @@ Definition rtp_parse1 (l : bytes) : option ((N * bytes) * bytes) :=
       end
   | _ => None
   end.
+
+(* RFC 2326 section 10.12 in full: interleaved binary data and RTSP messages
+   share the connection.  A response (here: without body, as the reply to
+   OPTIONS is) is a header block, "RTSP/..." up to the first empty line. *)
+Definition is_crlfcrlf (l : bytes) : bool :=
+  match l with
+  | a :: b :: c :: d :: _ => (a =? 13) && (b =? 10) && (c =? 13) && (d =? 10)
+  | _ => false
+  end.
+
+Fixpoint scan_hdr (acc : bytes) (l : bytes) : option (bytes * bytes) :=
+  match l with
+  | [] => None
+  | x :: t => if is_crlfcrlf l then Some (acc ++ [13; 10; 13; 10], skipn 4 l) else scan_hdr (acc ++ [x]) t
+  end.
+
+Definition rtsp_parse1 (l : bytes) : option (((N * bytes) + bytes) * bytes) :=
+  match l with
+  | 36 :: _ => match rtp_parse1 l with Some (x, r) => Some (inl x, r) | None => None end
+  | 82 :: _ => match scan_hdr [] l with Some (h, r) => Some (inr h, r) | None => None end
+  | _ => None
+  end.
+
+(* a well-formed reply text: starts with 'R', ends with its only empty line *)
+Definition resp_ok (resp : bytes) : Prop :=
+  (exists t, resp = 82 :: t) /\ scan_hdr [] resp = Some (resp, []).
 
 (* ISO 13818-1: 188-byte packets that start with the sync byte 0x47 *)
 Definition ts_parse1 (l : bytes) : option (bytes * bytes) :=
